@@ -67,6 +67,14 @@ def overlay_for(prop):
             if fn.endswith(".go"):
                 rel = os.path.relpath(root, shim_root)
                 rep[os.path.join(REPO, rel, "zz_verif_%s_%s" % (name, fn))] = os.path.join(root, fn)
+    # optional shared server fixture (real wiring of SessionManager + handlers): opt in with a USE_FIXTURE marker file
+    if os.path.exists(os.path.join(HARNESS, "cmd", name, "USE_FIXTURE")):
+        fx_root = os.path.join(HARNESS, "fixture")
+        for root, _, files in os.walk(fx_root):
+            for fn in files:
+                if fn.endswith(".go"):
+                    rel = os.path.relpath(root, fx_root)
+                    rep[os.path.join(REPO, rel, "zz_verif_fixture_" + fn)] = os.path.join(root, fn)
     os.makedirs(BUILD, exist_ok=True)
     path = os.path.join(BUILD, "overlay_%s.json" % name)
     with open(path, "w") as fh:
